@@ -16,7 +16,8 @@ ASSUMPTIONS = ['bound: half a step when the config is symmetric, one step when a
                'decoder trusted: INT4 low nibble first, sign-extended']
 TT = models.TT
 VARIANTS = [v for k in ('FULLY_CONNECTED', 'CONV_2D', 'DEPTHWISE_CONV_2D', 'CONV_2D_TRANSPOSE', 'BATCH_MATMUL', 'EMBEDDING_LOOKUP')
-            for v in models.SINGLE_OPS[k] if v != 'bmm_act'] + ['add_const', 'sub_const', 'mul_const']
+            for v in models.SINGLE_OPS[k] if v != 'bmm_act'] + ['add_const', 'sub_const', 'mul_const',
+                                                                  'bmm_const_lhs', 'bmm_const_lhs_adjx']   # constant as FIRST operand of BATCH_MATMUL
 
 
 def plan(tier):
